@@ -358,11 +358,11 @@ func unionProps(a, b []string) []string {
 func (f *Frame) applyModifies(ct *Contract, callee *ssa.Function, env *specEnv, st, old *State) {
 	e := f.e
 	allocBefore := st.alloc
-	var w map[string]bool
+	w := map[string]bool{}
 	if callee != nil && callee.Blocks != nil {
-		w = e.P.staticWrites(e, callee)
-	} else {
-		w = map[string]bool{}
+		for k, v := range e.P.staticWrites(e, callee) {
+			w[k] = v
+		}
 	}
 	if !ct.HasMod {
 		// unspecified frame: everything the body may write is havocked
@@ -393,10 +393,9 @@ func (f *Frame) applyModifies(ct *Contract, callee *ssa.Function, env *specEnv, 
 			}
 		}
 	}
-	if w["*"] {
-		f.havocAll(st)
-		return
-	}
+	// "*" (a call through an unknown function value somewhere below) is covered by the callee's own frame check
+	// against its modifies clause (callback contracts): only what the clause names, plus fresh memory, changes
+	delete(w, "*")
 	na := e.fresh("alloc_c", sInt)
 	e.assert(fmt.Sprintf("(and (>= %s %s) (< %s %s))", na, st.alloc, na, pow2(embBase-1)))
 	for _, h := range sortedKeys(w) {
